@@ -65,6 +65,12 @@ def cmd_lint(args):
                 if g is None or g['lines'] != cur:
                     print('%s: %s: current extraction differs from the golden extraction' % (name, r.key))
                     bad += 1
+            if u.trusted_items():
+                gold_th = golden.get('@trusted', {})
+                for k, v in u.trusted_hashes(U.REPO).items():
+                    if gold_th.get(k) != v:
+                        print('%s: hashed (trusted / watched) item differs from the golden hash: %s' % (name, k))
+                        bad += 1
     return 1 if bad else 0
 
 
